@@ -771,6 +771,7 @@ fn observe_inv(
             return None;
         }
         op = format!("Other {} {} {}", zt(&(&post.bal - &pre.bal)), zt(&(&post.pcd - &pre.pcd)), zt(&(&post.ip - &pre.ip)));
+        sends_enc = vec!["0".into()];
     }
     // gated handlers that went through must have cleared the debt by burning it
     if ok && (kind == "withdraw" || kind == "pre_commit" || kind == "declare_recovered") && single {
@@ -961,6 +962,8 @@ struct Run<'a> {
     h: Hist,
     seed: u64,
     case: u64,
+    agenda: Vec<Act>,
+    want_sectors: usize,
 }
 
 impl<'a> Run<'a> {
@@ -1146,10 +1149,12 @@ impl<'a> Run<'a> {
         self.go("terminate", from, miner, TokenAmount::zero(), MinerMethod::TerminateSectors as u64, Some(TerminateSectorsParams { terminations }), plan);
     }
 
-    fn dispute(&mut self) {
+    fn dispute(&mut self, at: Option<u64>) {
         let miner = self.w.miner;
         let reporter = if self.r.chance(85) { self.w.reporter } else { self.w.owner };
-        let (deadline, post_index) = if !self.w.posts.is_empty() && self.r.chance(85) {
+        let (deadline, post_index) = if let Some(d) = at {
+            (d, 0)
+        } else if !self.w.posts.is_empty() && self.r.chance(85) {
             let p = *self.r.pick(&self.w.posts.clone());
             (p.0, if self.r.chance(90) { 0 } else { 1 })
         } else { (self.r.below(50), 0) };
@@ -1188,28 +1193,120 @@ impl<'a> Run<'a> {
         self.go("withdraw", from, miner, TokenAmount::zero(), MinerMethod::WithdrawBalance as u64, Some(WithdrawBalanceParams { amount_requested: amt }), plan);
     }
 
-    fn step(&mut self) {
+    fn cur_dl(&self) -> u64 {
+        self.state().deadline_info(&self.w.v.policy, self.w.v.epoch()).index
+    }
+
+    /// advance (proving every deadline on the way) to deadline `target`, then close it with `mode`
+    fn travel(&mut self, target: u64, mode: u8) {
+        let mut guard = 0;
+        while self.cur_dl() != target && guard < 50 {
+            self.advance_deadline(1);
+            guard += 1;
+        }
+        self.advance_deadline(mode);
+    }
+
+    fn act(&mut self, a: Act) {
         let (owner, worker, stranger, funder, miner) = (self.w.owner, self.w.worker, self.w.stranger, self.w.funder, self.w.miner);
-        match self.r.below(100) {
-            0..=21 => { let p = match self.r.below(10) { 0..=5 => 1, 6 => 2, 7 => 3, _ => 0 }; self.advance_deadline(p) }
-            22..=27 => { for _ in 0..(2 + self.r.below(4)) { let p = if self.r.chance(60) { 1 } else { 0 }; self.advance_deadline(p); } }
-            28..=35 => { let f = if self.r.chance(92) { worker } else { stranger }; self.pre_commit(f) }
-            36..=42 => self.prove_commit(),
-            43..=47 => { let f = if self.r.chance(92) { worker } else { stranger }; self.declare(false, f) }
-            48..=55 => { let f = if self.r.chance(90) { worker } else { stranger }; self.declare(true, f) }
-            56..=62 => { let f = if self.r.chance(92) { worker } else { stranger }; self.terminate(f) }
-            63..=69 => self.dispute(),
-            70..=77 => self.report_fault(),
-            78..=83 => self.award(),
-            84..=89 => { let f = if self.r.chance(90) { owner } else { stranger }; let all = self.r.chance(55); self.withdraw(f, all) }
-            90..=92 => { let f = if self.r.chance(85) { worker } else { stranger }; let plan = self.maybe_plan(8, 3); self.go::<()>("repay_debt", f, miner, TokenAmount::zero(), MinerMethod::RepayDebt as u64, None, plan); }
-            93..=95 => { let amt = ta(self.r.below(60) as i128 * FIL); self.go::<()>("fund", funder, miner, amt, METHOD_SEND, None, None); }
-            _ => {
-                // a few plain epochs with the cron running (processes deferred early terminations)
+        match a {
+            Act::Advance(mode) => self.advance_deadline(mode),
+            Act::AdvanceMany(n, prove_pct) => {
+                for _ in 0..n { let p = if self.r.chance(prove_pct) { 1 } else { 0 }; self.advance_deadline(p); }
+            }
+            Act::Travel(mode) => {
+                if self.w.live.is_empty() { self.advance_deadline(1); return; }
+                let n = *self.r.pick(&self.w.live.clone());
+                match self.locate(n) {
+                    Some((d, _)) => {
+                        self.travel(d, mode);
+                        if mode == 2 && self.r.chance(75) {
+                            self.agenda.extend([Act::Advance(1), Act::Advance(1), Act::DisputeAt(d)]);
+                        }
+                    }
+                    None => self.advance_deadline(1),
+                }
+            }
+            Act::PreCommit => {
+                let f = if self.r.chance(93) { worker } else { stranger };
+                let before = self.w.pending.len();
+                self.pre_commit(f);
+                if self.w.pending.len() > before {
+                    self.agenda.extend([Act::Advance(1), Act::Advance(1), Act::Advance(1), Act::ProveCommit]);
+                }
+            }
+            Act::ProveCommit => self.prove_commit(),
+            Act::DeclareFaults => { let f = if self.r.chance(92) { worker } else { stranger }; self.declare(false, f) }
+            Act::DeclareRecovered => { let f = if self.r.chance(90) { worker } else { stranger }; self.declare(true, f) }
+            Act::Terminate => { let f = if self.r.chance(92) { worker } else { stranger }; self.terminate(f) }
+            Act::Dispute => self.dispute(None),
+            Act::DisputeAt(d) => self.dispute(Some(d)),
+            Act::ReportFault => self.report_fault(),
+            Act::Award => self.award(),
+            Act::Withdraw => { let f = if self.r.chance(90) { owner } else { stranger }; let all = self.r.chance(55); self.withdraw(f, all) }
+            Act::RepayDebt => {
+                let f = if self.r.chance(85) { worker } else { stranger };
+                let plan = self.maybe_plan(8, 3);
+                self.go::<()>("repay_debt", f, miner, TokenAmount::zero(), MinerMethod::RepayDebt as u64, None, plan);
+            }
+            Act::Fund => { let amt = ta(self.r.below(80) as i128 * FIL); self.go::<()>("fund", funder, miner, amt, METHOD_SEND, None, None); }
+            Act::Ticks => {
                 for _ in 0..(1 + self.r.below(3)) { let e = self.w.v.epoch(); self.tick(None); self.w.v.set_epoch(e + 1); }
             }
         }
     }
+
+    fn step(&mut self, i: usize, len: usize) {
+        if !self.agenda.is_empty() && self.r.chance(85) {
+            let a = self.agenda.remove(0);
+            self.act(a);
+            return;
+        }
+        // onboarding bias in the first half
+        if i < len / 2 && (self.w.live.len() + self.w.pending.len()) < self.want_sectors && self.r.chance(45) {
+            self.act(Act::PreCommit);
+            return;
+        }
+        let a = match self.r.below(100) {
+            0..=15 => Act::Travel(match self.r.below(20) { 0..=6 => 1, 7..=11 => 2, 12..=14 => 3, _ => 0 }),
+            16..=23 => Act::Advance(if self.r.chance(70) { 1 } else { 0 }),
+            24..=27 => Act::AdvanceMany(48, 90),
+            28..=29 => Act::AdvanceMany(2 + self.r.below(5), 50),
+            30..=37 => Act::PreCommit,
+            38..=41 => Act::ProveCommit,
+            42..=47 => Act::DeclareFaults,
+            48..=55 => Act::DeclareRecovered,
+            56..=62 => Act::Terminate,
+            63..=66 => Act::Dispute,
+            67..=72 => Act::ReportFault,
+            73..=79 => Act::Award,
+            80..=86 => Act::Withdraw,
+            87..=89 => Act::RepayDebt,
+            90..=94 => Act::Fund,
+            _ => Act::Ticks,
+        };
+        self.act(a);
+    }
+}
+
+#[derive(Clone, Copy, Debug)]
+enum Act {
+    Advance(u8),
+    AdvanceMany(u64, u64),
+    Travel(u8),
+    PreCommit,
+    ProveCommit,
+    DeclareFaults,
+    DeclareRecovered,
+    Terminate,
+    Dispute,
+    DisputeAt(u64),
+    ReportFault,
+    Award,
+    Withdraw,
+    RepayDebt,
+    Fund,
+    Ticks,
 }
 
 fn run_case(seed: u64, k: u64, len: usize, stats: &mut Stats) -> (Case, Vec<serde_json::Value>) {
@@ -1217,20 +1314,21 @@ fn run_case(seed: u64, k: u64, len: usize, stats: &mut Stats) -> (Case, Vec<serd
     for _ in 0..k { root.next_u64(); }
     let mut r = root.fork(k);
     let plan = Plan {
-        extra_fil: *r.pick(&[0i64, 1, 5, 40, 300, 5000]),
+        extra_fil: if r.chance(15) { *r.pick(&[0i64, 1, 5]) } else { *r.pick(&[60i64, 150, 400, 5000]) },
         pad: !r.chance(12),
         small_batches: r.chance(25),
         circ_fil: *r.pick(&[0i64, 1_000_000, 500_000_000]),
-        workflow_onboard: if r.chance(45) { 1 + r.below(4) } else { 0 },
+        workflow_onboard: if r.chance(55) { 1 + r.below(4) } else { 0 },
     };
     let key = if plan.pad { "histories_with_padded_network_pledge_total" } else { "histories_without_padding" };
     *stats.extra.entry(key.into()).or_insert(serde_json::json!(0)) = serde_json::json!(stats.extra.get(key).and_then(|x| x.as_u64()).unwrap_or(0) + 1);
     let w = setup(&plan);
     let init = snapshot(&w).coq();
-    let mut run = Run { w, r, stats, h: Hist { steps: vec![], script: vec![], fails: vec![], accepted_penalised: false, rejected: false }, seed, case: k };
+    let want = 1 + r.below(5) as usize;
+    let mut run = Run { w, r, stats, h: Hist { steps: vec![], script: vec![], fails: vec![], accepted_penalised: false, rejected: false }, seed, case: k, agenda: vec![], want_sectors: want };
     run.h.script.push(format!("setup extra={}FIL pad={} small_batches={} circ={}FIL workflow_onboard={}", plan.extra_fil, plan.pad, plan.small_batches, plan.circ_fil, plan.workflow_onboard));
-    for _ in 0..len {
-        run.step();
+    for i in 0..len {
+        run.step(i, len);
     }
     let nontrivial = run.h.rejected && run.h.steps.len() > 3;
     let _ = run.h.accepted_penalised;
